@@ -62,6 +62,9 @@ func tableFuncs(p *Program, pkgPath, global string) []*ssa.Function {
 	return out
 }
 
+// name of the table of the iterating operators, found by role on each run
+var c10ExprTable string
+
 func checkC10(c *Check) {
 	p := c.P
 	c.Explanation = "C10 (structural clauses of purity): (1) every function registered in the evaluator's operator tables (valueFunctions, exprFunctions, unaryFunctions — folded from the map literals) treats its *sysl.Value operands as read-only: its bottom-up effect summary (same engine as R-ORDER) contains no store, map update or append through an operand; the only scope write allowed to a table function is a binding under its scope-variable parameter; (2) no append in pkg/eval extends a slice that was loaded from a field of a pointer parameter unless the result is stored back to that same field, and no append on a slice parameter has its result retained in another object (the aliasing shapes behind 'list concatenation corrupts its left operand'); (3) every scope-variable binding is followed on all paths by its deletion, and the dispatch site of the table-driven iterating operators saves the previous binding before the call and restores it after the deletion; (4) the set-typed transform path appends through a function whose append is control-dependent on a failed equality scan, and the set-union operator builds its result from the keys of Go maps; (5) no map iteration in pkg/eval reaches list or string construction unsorted (R-ORDER). Agreement with the expression semantics is not decided."
@@ -75,8 +78,58 @@ func checkC10(c *Check) {
 	e := newOrderEngine(p)
 	tables := map[string][]*ssa.Function{}
 	total := 0
+	// the operator tables, by role: package variables of pkg/eval that are maps of
+	// functions over *sysl.Value. The table of the iterating operators (where,
+	// flatten, …) is the one whose functions take a scope and the name of the scope
+	// variable; the binary table takes two values, the unary table one. The roles
+	// keep the names the tables have on the pinned tree.
+	roleOf := map[string]string{}
+	if sp := p.SSAPkgs[evalPkg]; sp != nil {
+		var names []string
+		for n := range sp.Members {
+			names = append(names, n)
+		}
+		sort.Strings(names)
+		for _, n := range names {
+			g, ok := sp.Members[n].(*ssa.Global)
+			if !ok {
+				continue
+			}
+			m, ok := g.Type().(*types.Pointer).Elem().Underlying().(*types.Map)
+			if !ok {
+				continue
+			}
+			sig, ok := m.Elem().Underlying().(*types.Signature)
+			if !ok {
+				continue
+			}
+			nVal, hasScope, hasName := 0, false, false
+			for i := 0; i < sig.Params().Len(); i++ {
+				t := sig.Params().At(i).Type()
+				switch {
+				case typeIs(t, syslPkg, "Value"):
+					nVal++
+				case isScopeType(t):
+					hasScope = true
+				case isStringType(t):
+					hasName = true
+				}
+			}
+			switch {
+			case hasScope && hasName:
+				roleOf["exprFunctions"] = n
+			case nVal == 2:
+				roleOf["valueFunctions"] = n
+			case nVal == 1:
+				roleOf["unaryFunctions"] = n
+			}
+		}
+	}
+	c10ExprTable = roleOf["exprFunctions"]
 	for _, g := range []string{"valueFunctions", "exprFunctions", "unaryFunctions"} {
-		tables[g] = tableFuncs(p, evalPkg, g)
+		if roleOf[g] != "" {
+			tables[g] = tableFuncs(p, evalPkg, roleOf[g])
+		}
 		total += len(tables[g])
 	}
 	c.Counts["table_functions"] = total
@@ -378,6 +431,59 @@ func c10Scope(c *Check, tables map[string][]*ssa.Function) {
 	c.Counts["scope_variable_bindings"] = nb
 	// (b) dispatch site: dynamic call of an exprFunctions entry
 	nd := 0
+	isTableEntry := func(v ssa.Value) bool {
+		return derives(v, func(v ssa.Value) bool {
+			lk, ok := v.(*ssa.Lookup)
+			if !ok {
+				return false
+			}
+			g, isG := loadsGlobal(lk.X)
+			return isG && g.Name() == c10ExprTable
+		}, nil)
+	}
+	// around: the discipline (save, delete, restore) evaluated in function f around
+	// the instruction `call` for the scope-variable value sv
+	around := func(f *ssa.Function, call ssa.Instruction, sv ssa.Value, key string) {
+		svKey := exprKey(sv, 0)
+		// save before
+		var save *ssa.Lookup
+		eachInstr(f, func(_ *ssa.BasicBlock, j ssa.Instruction) {
+			if lk, ok := j.(*ssa.Lookup); ok && lk.CommaOk && isScopeType(lk.X.Type()) && exprKey(lk.Index, 0) == svKey && instrDominates(lk, call) {
+				save = lk
+			}
+		})
+		c.Cond(save != nil, "SCOPE-DISCIPLINE", key+"|previous binding saved", p.pos(call.Pos()),
+			"the previous binding of the scope variable is read (comma-ok) before the operator runs",
+			"the previous binding of the scope variable is not saved before the operator overwrites it")
+		// delete after on all paths
+		del := func(x ssa.Instruction) bool {
+			cl, ok := x.(*ssa.Call)
+			if !ok {
+				return false
+			}
+			b, ok := cl.Call.Value.(*ssa.Builtin)
+			return ok && b.Name() == "delete" && exprKey(cl.Call.Args[1], 0) == svKey
+		}
+		_, leak := reachAvoiding(call, isReturn, del)
+		c.Cond(!leak, "SCOPE-DISCIPLINE", key+"|binding deleted after the call", p.pos(call.Pos()),
+			"every path from the operator call to a return deletes the scope variable",
+			"a path from the operator call reaches a return without deleting the scope variable: `where`/`flatten` leak their scope variable")
+		// restore: MapUpdate with saved value under the ok flag
+		restored := false
+		if save != nil {
+			eachInstr(f, func(_ *ssa.BasicBlock, j ssa.Instruction) {
+				mu, ok := j.(*ssa.MapUpdate)
+				if !ok || exprKey(mu.Key, 0) != svKey || !instrDominates(call, mu) {
+					return
+				}
+				if derives(mu.Value, func(v ssa.Value) bool { return v == ssa.Value(save) }, nil) {
+					restored = true
+				}
+			})
+		}
+		c.Cond(restored, "SCOPE-DISCIPLINE", key+"|previous binding restored", p.pos(call.Pos()),
+			"the saved binding is written back after the deletion", "the saved binding of the scope variable is never written back: an outer variable with the same name is lost")
+	}
 	for _, f := range p.RepoFuncs() {
 		if fnPkgPath(f) != evalPkg {
 			continue
@@ -390,15 +496,38 @@ func c10Scope(c *Check, tables map[string][]*ssa.Function) {
 			if _, isB := call.Call.Value.(*ssa.Builtin); isB {
 				return
 			}
-			fromTable := derives(call.Call.Value, func(v ssa.Value) bool {
-				lk, ok := v.(*ssa.Lookup)
-				if !ok {
-					return false
+			callee := call.Call.Value
+			inClosure := false
+			var mc *ssa.MakeClosure
+			if ld, isLd := callee.(*ssa.UnOp); isLd && ld.Op == token.MUL {
+				callee = ld.X
+			}
+			if fv, isFV := callee.(*ssa.FreeVar); isFV && f.Parent() != nil {
+				// the operator was looked up by the enclosing function and is run by a closure
+				eachInstr(f.Parent(), func(_ *ssa.BasicBlock, j ssa.Instruction) {
+					if m, ok := j.(*ssa.MakeClosure); ok && m.Fn == ssa.Value(f) {
+						for k, b := range m.Bindings {
+							if k < len(f.FreeVars) && f.FreeVars[k] == fv {
+								// the binding is the cell holding the looked-up function, or the value itself
+								v := b
+								if al, isAl := b.(*ssa.Alloc); isAl && al.Referrers() != nil {
+									for _, r := range *al.Referrers() {
+										if st, isSt := r.(*ssa.Store); isSt && st.Addr == ssa.Value(al) {
+											v = st.Val
+										}
+									}
+								}
+								if isTableEntry(v) {
+									inClosure, mc = true, m
+								}
+							}
+						}
+					}
+				})
+				if !inClosure {
+					return
 				}
-				g, isG := loadsGlobal(lk.X)
-				return isG && g.Name() == "exprFunctions"
-			}, nil)
-			if !fromTable {
+			} else if !isTableEntry(call.Call.Value) {
 				return
 			}
 			nd++
@@ -409,53 +538,54 @@ func c10Scope(c *Check, tables map[string][]*ssa.Function) {
 				if isScopeType(a.Type()) {
 					scope = a
 				}
-				if _, fld, _, ok := loadedField(a); ok && fld == "Scopevar" {
+				if _, fld, _, ok := loadedField(unspill(a)); ok && fld == "Scopevar" {
 					sv = a
 				}
+			}
+			if inClosure {
+				// the closure is handed to a helper that runs it between saving and
+				// restoring the scope variable: evaluate the discipline there
+				outer := f.Parent()
+				done := false
+				for _, r := range *mc.Referrers() {
+					hc, ok := r.(*ssa.Call)
+					if !ok {
+						continue
+					}
+					h := hc.Call.StaticCallee()
+					if h == nil || !isRepoFn(h) || len(h.Blocks) == 0 {
+						continue
+					}
+					bodyIdx, nameIdx := -1, -1
+					for k, a := range hc.Call.Args {
+						if a == ssa.Value(mc) {
+							bodyIdx = k
+						}
+						if _, fld, _, ok := loadedField(unspill(a)); ok && fld == "Scopevar" {
+							nameIdx = k
+						}
+					}
+					if bodyIdx < 0 || nameIdx < 0 || bodyIdx >= len(h.Params) || nameIdx >= len(h.Params) {
+						continue
+					}
+					eachInstr(h, func(_ *ssa.BasicBlock, j ssa.Instruction) {
+						bc, ok := j.(*ssa.Call)
+						if ok && bc.Call.Value == ssa.Value(h.Params[bodyIdx]) {
+							around(h, bc, h.Params[nameIdx], fmt.Sprintf("%s|dispatch of iterating operators", fnName(outer)))
+							done = true
+						}
+					})
+				}
+				if !done {
+					c.Undecidedf("SCOPE-DISCIPLINE", key, p.pos(call.Pos()), "the operator is run by a closure, and the helper that runs the closure between saving and restoring the scope variable was not found")
+				}
+				return
 			}
 			if scope == nil || sv == nil {
 				c.Undecidedf("SCOPE-DISCIPLINE", key, p.pos(call.Pos()), "dispatch call does not pass (scope, scope variable) in a recognisable form")
 				return
 			}
-			svKey := exprKey(sv, 0)
-			// save before
-			var save *ssa.Lookup
-			eachInstr(f, func(_ *ssa.BasicBlock, j ssa.Instruction) {
-				if lk, ok := j.(*ssa.Lookup); ok && lk.CommaOk && isScopeType(lk.X.Type()) && exprKey(lk.Index, 0) == svKey && instrDominates(lk, call) {
-					save = lk
-				}
-			})
-			c.Cond(save != nil, "SCOPE-DISCIPLINE", key+"|previous binding saved", p.pos(call.Pos()),
-				"the previous binding of the scope variable is read (comma-ok) before the operator runs",
-				"the previous binding of the scope variable is not saved before the operator overwrites it")
-			// delete after on all paths
-			del := func(x ssa.Instruction) bool {
-				cl, ok := x.(*ssa.Call)
-				if !ok {
-					return false
-				}
-				b, ok := cl.Call.Value.(*ssa.Builtin)
-				return ok && b.Name() == "delete" && exprKey(cl.Call.Args[1], 0) == svKey
-			}
-			_, leak := reachAvoiding(call, isReturn, del)
-			c.Cond(!leak, "SCOPE-DISCIPLINE", key+"|binding deleted after the call", p.pos(call.Pos()),
-				"every path from the operator call to a return deletes the scope variable",
-				"a path from the operator call reaches a return without deleting the scope variable: `where`/`flatten` leak their scope variable")
-			// restore: MapUpdate with saved value under the ok flag
-			restored := false
-			if save != nil {
-				eachInstr(f, func(_ *ssa.BasicBlock, j ssa.Instruction) {
-					mu, ok := j.(*ssa.MapUpdate)
-					if !ok || exprKey(mu.Key, 0) != svKey || !instrDominates(call, mu) {
-						return
-					}
-					if derives(mu.Value, func(v ssa.Value) bool { return v == ssa.Value(save) }, nil) {
-						restored = true
-					}
-				})
-			}
-			c.Cond(restored, "SCOPE-DISCIPLINE", key+"|previous binding restored", p.pos(call.Pos()),
-				"the saved binding is written back after the deletion", "the saved binding of the scope variable is never written back: an outer variable with the same name is lost")
+			around(f, call, sv, key)
 		})
 	}
 	if nd == 0 {
